@@ -565,7 +565,7 @@ func init() {
 		Rule: "attribute lookup: the complete grid of ~37 containers (maps keyed by string/int/uint8/bool/float64/interface{}, slices, arrays, structs with exported/unexported/embedded fields and value/pointer-receiver methods, pointers, nil pointers, nil maps and slices, scalars) x ~42 keys (strings, all numeric kinds, bool, nil, composite) and 13 methods x ~60 argument lists; " +
 			"oracle: a direct Go model - the element for a correctly typed key/index/field/call, error for absent, out-of-range, nil container, wrong arity or unusable key/argument type (or the element a documented coercion selects), never a panic. " +
 			"Iteration: generated slices/arrays/maps (length 0-9, several element and key types, through pointers, nil) - callback count == Len, slices in index order, maps as a multiset, loop metadata relations, Len/Contains/IsIterable/IsArray/IsMap agree. " +
-			"Non-trivial: key kind differs from the container's key kind, or the container is a pointer / nil, or a method is called with >= 1 argument; iteration length >= 2; distinct by case. Also: maps keyed at the edge of uint8/uint16/uint32/int8 probed with keys of the other signedness, a method with a uint8 parameter, and string-keyed maps whose iteratee adds entries during the traversal (the metadata of the traversal performed must stay coherent); lists behind a pointer that the iteratee cuts to half; numeric-keyed maps probed with the plain spelling of an existing key (names.1).",
+			"Non-trivial: key kind differs from the container's key kind, or the container is a pointer / nil, or a method is called with >= 1 argument; iteration length >= 2; distinct by case. Also: maps keyed at the edge of uint8/uint16/uint32/int8 probed with keys of the other signedness, a method with a uint8 parameter, and string-keyed maps whose iteratee adds entries during the traversal (the metadata of the traversal performed must stay coherent); lists behind a pointer that the iteratee cuts to half; numeric-keyed maps probed with the plain spelling of an existing key (names.1) and with numbers that reach an existing key only by wrapping around; the Twig length filter agrees with the number of steps.",
 		Assumptions: []string{"the menagerie (worker/values.go) is a fixed, documented list of Go types; values a host could pass are unbounded"},
 	}
 	attr := NewSub(p, "getattr", func(c *Ctx, cs *c16Case) *Fail {
